@@ -34,7 +34,6 @@ def Sel.setOrderBy : Sel → List Expr → Sel
 def Sel.setLimit : Sel → Option Expr → Sel
   | .mk ws d c f j p w g h o _, l => .mk ws d c f j p w g h o l
 
-
 /-! ### further `sql_select.Select` methods (shared by the metric and the TraceQL planner models) -/
 def Sel.cols : Sel → List Expr
   | .mk _ _ c _ _ _ _ _ _ _ _ => c
